@@ -1,6 +1,6 @@
 (* C06 — mapreduce accounts for every file of every server under any scheduling.
    Statements only. *)
-From DT Require Import Lib.Bytes Model.C06_Account Proofs.C06_Account.
+From DT Require Import Lib.Bytes Model.C06_Account Proofs.C06_Account Proofs.C06_Full.
 
 (* Client side, repaired (blocking Merge): whatever the servers send and however the messages of
    different connections interleave, every partial result is merged into the global group exactly
@@ -38,12 +38,19 @@ Proof.
 Qed.
 Print Assumptions C06_server_refuted_requeue.
 
-(* Server side, repaired (partial): the aggregator stops only in a state where no accepted read
-   command is outstanding, no re-queue is in flight, the queue is empty and the current channel is
-   closed and drained; and nothing but that decision ends it.  The remaining step to the full
-   statement - that in such a state every produced line has been consumed - needs the channel
-   tracking invariant (every undrained or open registered channel is current, queued or in flight),
-   which is stated in DESIGN.md and exercised by the correspondence runs but not mechanised. *)
+(* Server side, repaired, EVERY schedule (any interleaving of command arrivals, registrations, pushes,
+   closes, the aggregator's takes, swaps and re-queues): when the aggregator has finished, no accepted
+   read command is outstanding, every registered channel is closed and empty, and every line any
+   reader produced has been consumed.  Channel-tracking invariant: every registered channel is the
+   current one, queued, in the hands of a re-queue goroutine, or closed and drained; produced =
+   consumed + what is queued; open channels <= outstanding commands. *)
+Theorem C06_server : forall es s, srun true sinit es = Some s -> finished s = true ->
+  pending s = 0 /\ consumed s = produced s /\
+  forall i, In i (regd s) -> closed (chans s i) = true /\ queued (chans s i) = 0.
+Proof. exact server_complete. Qed.
+Print Assumptions C06_server.
+
+(* the guard of the stop decision itself *)
 Theorem C06_server_partial : forall s s', sstep true s SStop = Some s' ->
   pending s = 0 /\ inflight s = [] /\ nextq s = [] /\
   exists c, cur s = Some c /\ closed (chans s c) = true /\ queued (chans s c) = 0.
